@@ -115,11 +115,11 @@ PROPS["C01"] = dict(
 
 PROPS["C13"] = dict(
     level="proof",
-    verus=["c13_redirect", "c04_partition"],
-    labels=["C13.", "C04.new.redirects", "C04.new.filters", "C06.add_filter."] + MASK,
+    verus=["c13_redirect", "c04_partition", "c18_gate"],
+    labels=["C13.", "C04.new.redirects", "C04.new.filters", "C06.add_filter.", "C18.perm.is_default"] + MASK,
     kani=[],
     trusted=["memchr::memrchr = last occurrence (shim)", "<i32 as FromStr>::from_str uninterpreted", "[T]::contains = membership",
-             "resource lookup / data-URL formatting (ResourceStorage) not yet under contract"],
+             "name/alias lookup and data-URL formatting in ResourceStorage are uninterpreted / lifted"],
     assumptions=[],
     level_text="Verus proves the redirect selection block: the chosen option is a non-excepted matching redirect rule of maximal priority, priority = integer suffix after the last ':' (else 0), "
                "resource name = text before it; and that redirect rules are filed in the redirect list and block only with the redirect (not redirect-rule) option",
@@ -143,16 +143,22 @@ PROPS["C10"] = dict(
 
 PROPS["C18"] = dict(
     level="proof",
-    verus=[],
-    labels=["C18."],
+    verus=["c18_gate"],
+    labels=["C18.", "C13.redirect_resource.", "C13.kind."],
     kani=[KaniSet("src/resources/mod.rs", "c18_perm.rs", [
         Harness("c18_perm_subset", "C18.perm.subset", "C", "all 256x256 pairs; loop over the 8 bit positions fully unwound"),
         Harness("c18_perm_default", "C18.perm.default", "C", "all u8 x u8, loop-free"),
     ])],
-    trusted=[],
-    assumptions=[],
-    level_text="Kani/CBMC full-domain proof of the permission subset test over all 256x256 pairs",
-    level_note="only the permission predicate so far",
+    trusted=["name/alias lookup in ResourceStorage (HashMap<String,_> probed by &str) uninterpreted",
+             "argument-list parsing, template rendering, stringify_arg, base64 decoding: lifted (R6) in the gate proof",
+             "Iterator::find over a slice returns an element of the slice (vf_iter shim)",
+             "termination of recursive_dependencies on cyclic graphs is NOT proved (exec_allows_no_decreases_clause)",
+             "per-host merge of injections / exceptions in cosmetic_filter_cache.rs is not under contract"],
+    assumptions=["scriptlet argument lists stored in rules parse (established at rule parse time)"],
+    level_text="Kani/CBMC proves the permission subset test over all 256x256 pairs; Verus proves that a scriptlet, and every dependency added to the page's list, is handed out only when every bit it requires "
+               "was granted to the requesting list (for any dependency graph, any prior list contents), that only injectable kinds are injected, and that a resource requiring any permission or of a "
+               "non-redirectable kind is never served as a redirect",
+    level_note="argument encoding (stringify_arg) is not yet under contract: the real format! makes the Kani harness exceed 15 min (measured); see DESIGN",
     design_ref="DESIGN.md section 4, C18",
 )
 
